@@ -198,6 +198,12 @@ def apply_map(x, name, p):
         if p["mode"] == "constant" and p.get("cv") is not None:
             kw["constant_values"] = p["cv"]
         return x.pad({dims[p["ax"]]: (p["before"], p["after"])}, mode=p["mode"], **kw)
+    if name == "pad2":
+        kw = {}
+        if p["mode"] == "constant" and p.get("cv") is not None:
+            kw["constant_values"] = p["cv"]
+        return x.pad({dims[p["ax"]]: (p["before"], p["after"]), dims[p["ax2"]]: (p["before2"], p["after2"])},
+                     mode=p["mode"], **kw)
     if name == "rot90":
         return x.rotate90(dims[p["a"]], dims[p["b"]], k=p["k"], inplace=bool(p.get("inplace")))
     if name == "resample":
@@ -306,6 +312,13 @@ def expr_coq(t):
         return f"(Un {un_coq(t[1], t[2])} {expr_coq(t[3])})"
     if tag == "bin":
         return f"(Bin {BIN_CTOR[t[1]]} {expr_coq(t[3])} {expr_coq(t[4])})"
+    if t[1] == "pad2":
+        p = t[2]
+        inner = dict(mode=p["mode"], ax=p["ax2"], before=p["before2"], after=p["after2"], cv=p.get("cv"))
+        outer = dict(mode=p["mode"], ax=p["ax"], before=p["before"], after=p["after"], cv=p.get("cv"))
+        if p.get("swap"):
+            inner, outer = outer, inner
+        return f"(Map {map_coq('pad', outer)} (Map {map_coq('pad', inner)} {expr_coq(t[3])}))"
     return f"(Map {map_coq(t[1], t[2])} {expr_coq(t[3])})"
 
 
@@ -366,6 +379,8 @@ def rand_map(rng, x, allow_io=True, in_tree=True):
     kinds = ["range", "block", "pad", "pad", "resample"]
     if nd >= 2:
         kinds += ["plane", "rot90", "rot90"]
+        if in_tree:
+            kinds += ["pad2"]
     if allow_io:
         kinds += ["hdf5"]
         if nd == 3:
@@ -398,6 +413,14 @@ def rand_map(rng, x, allow_io=True, in_tree=True):
         if mode == "constant":
             p["cv"] = rng.choice([None, None, 0, 1, 5])
         return "pad", p
+    if k == "pad2":
+        a, b = rng.sample(range(nd), 2)
+        mode = rng.choice(["constant", "edge", "wrap", "symmetric", "reflect"])
+        p = dict(mode=mode, ax=a, before=rng.randint(0, 3), after=rng.randint(0, 3), ax2=b,
+                 before2=rng.randint(0, 3), after2=rng.randint(0, 2 * n[b] + 2), swap=rng.random() < 0.5)
+        if mode == "constant":
+            p["cv"] = rng.choice([None, 0, 1, 5])
+        return "pad2", p
     if k == "rot90":
         a, b = rng.sample(range(nd), 2)
         p = dict(a=a, b=b, k=rng.choice([-5, -3, -2, -1, 0, 1, 1, 2, 3, 3, 4, 6, 7]))
@@ -619,6 +642,39 @@ def gen_single_op_cases(rng, tier):
     return out
 
 
+def gen_geo_case(rng, tier):
+    """binary operation between fields whose meshes have the same n; shifted regions must be rejected"""
+    c = base_case(rng, tier, nd=rng.choice([1, 2, 3]))
+    n = c["n"] = [rng.randint(2, 4) for _ in c["n"]]
+    nv = rng.choice([1, 3])
+    c["leaves"] = [rand_leaf(rng, n, nv), rand_leaf(rng, n, nv), rand_leaf(rng, n, 1)]
+    ax = rng.randrange(len(n))
+    mode = rng.choice(["edge", "wrap", "constant", "symmetric"])
+
+    def moved(leaf, shift):
+        # pad one side, cut the same number of cells: same n; shift = displacement in cells (0 = same mesh)
+        b = rng.randint(0, 2)
+        a = b + shift
+        if a < 0:
+            b, a = b - a, 0
+        # pad b before / a after, keep cells a .. a + n - 1  ->  origin moves by a - b
+        return ["map", "range", dict(ax=ax, lo=a, hi=a + n[ax] - 1),
+                ["map", "pad", dict(mode=mode, ax=ax, before=b, after=a, cv=None), ["leaf", leaf]]]
+    shift = rng.choice([0, 0, 1, -1, 2])
+    e1 = ["leaf", 0] if rng.random() < 0.6 else moved(0, 0)
+    e2 = moved(rng.choice([1, 2]), shift)
+    if rng.random() < 0.5:
+        e1, e2 = e2, e1
+    names = ["add", "sub", "mul", "div", "pow", "lshift", "ufunc2"]
+    name = rng.choice(names)
+    p = dict(f=rng.choice(["add", "multiply", "maximum"])) if name == "ufunc2" else {}
+    c["tree"] = ["bin", name, p, e1, e2]
+    c["geo"] = True
+    c["expect_reject"] = shift != 0
+    c["kind"] = "expr"
+    return c
+
+
 def gen_mapdata(rng, tier):
     c = base_case(rng, tier, nmax=5 if tier == "thorough" else 4)
     n = c["n"]
@@ -733,6 +789,8 @@ def generate(rng, tier):
     for cat in ("map", "bin", "un"):
         for _ in range(40 if quick else 300):
             cases.append(gen_expr_case(rng, tier, force=cat))
+    for _ in range(60 if quick else 400):
+        cases.append(gen_geo_case(rng, tier))
     for _ in range(260 if quick else 2500):
         cases.append(gen_mapdata(rng, tier))
     for _ in range(220 if quick else 1500):
@@ -757,6 +815,9 @@ def run_expr(c):
     with np.errstate(all="ignore"):
         st, r = attempt(lambda: ev(tree, leaves))
     env = "[" + "; ".join(f"({g.nl(n)}, {g.bl(lf['mask'])})" for lf in c["leaves"]) + "]"
+    geo = None
+    if c.get("geo"):
+        geo = f"CBinGeo {env} {g.nat(len(n))} {BIN_CTOR[tree[1]]} {expr_coq(tree[3])} {expr_coq(tree[4])}"
     top = tree[0] if tree[0] != "pos" else "pos"
     opname = tree[1] if tree[0] in ("un", "bin", "map") else tree[0]
     if st != "ok" or not isinstance(r[0], df.Field):
@@ -764,7 +825,7 @@ def run_expr(c):
         if not c.get("expect_reject"):
             rec["oracle"].append("operation-raised")
         rec.update(obs=dict(err=err), key=f"expr/rej/{opname}", size=len(str(tree)),
-                   coq=f"CExpr {env} {expr_coq(tree)} None [] []")
+                   coq=(geo + " None") if geo else f"CExpr {env} {expr_coq(tree)} None [] []")
         return rec
     res, exp = r
     if c.get("expect_reject"):
@@ -798,6 +859,8 @@ def run_expr(c):
                touched=touched)
     coq = (f"CExpr {env} {expr_coq(tree)} (Some ({g.nl(mask.shape)}, {g.bl(obs['mask'])})) "
            f"{g.bl(shares)} {g.bl(touched)}")
+    if geo:
+        coq = f"{geo} (Some ({g.nl(mask.shape)}, {g.bl(obs['mask'])}))"
     sig = str(tree)
     rec.update(obs=obs, coq=coq, key=f"expr/{tuple(n)}/{hash(sig)}/{hash(tuple(c['leaves'][0]['mask']))}",
                size=len(sig) + math.prod(n), nontrivial=not all(all(lf["mask"]) for lf in c["leaves"]))
